@@ -39,11 +39,13 @@ ImplStep(pre, step, eng) ==
       p0 == IF eng = "pure" /\ step.op = "send"
             THEN [Unpack(pre) EXCEPT !.hist = [p \in HistOwners |-> {}], !.output = NONE]
             ELSE Unpack(pre)
-  IN CASE step.op = "start" -> StartStep([p0 EXCEPT !.faults = step.faults], step.gv, e0)
+  IN CASE step.op = "start" /\ pre.status # "uninitialized" -> RestartStep(p0)
+       [] step.op = "start" -> StartStep([p0 EXCEPT !.faults = step.faults], step.gv, e0)
        [] step.op = "send" /\ step.faults # {} -> SendStep([p0 EXCEPT !.faults = step.faults], step.ev, step.gv, e0)
        [] step.op = "send" /\ eng = "pure" /\ pre.status # "running" -> Unpack(pre)
        [] step.op = "send"  -> SendStep(p0, step.ev, step.gv, e0)
        [] step.op = "can"   -> CanStep(p0, step.ev, step.gv)
+       [] step.op = "stop"  -> StopStep(p0)
        [] step.op = "batch" -> BatchStep(p0, step.evs, step.gv, e0)
        [] OTHER -> p0
 
@@ -86,6 +88,7 @@ Verdict ==
                 C06 |-> On("C06", C06(pre, step, post, out)),
                 C20 |-> On("C20", C20(pre, step, post, out)),
                 C13 |-> On("C13", C13(pre, step, post, out)),
+                C14 |-> On("C14", C14(pre, step, post, out)),
                 C07 |-> On("C07", C07Abort(pre, step, post, out) \cup
                              (IF "clean" \in DOMAIN j /\ step.faults # {}
                               THEN C07Pair(St(j.clean.post), OutOf(j.clean.out), post, out, step.faults) ELSE {}))]]
